@@ -37,6 +37,7 @@ type FnExec struct {
 	cellProv map[string]*LValue
 	implQueries map[int]types.Type
 	boundAsserts map[string]bool
+	topAllowed   map[string]*frameAllow
 }
 
 type frame struct {
@@ -634,7 +635,7 @@ func (fx *FnExec) doAlloc(st *State, x *ssa.Alloc) {
 		st.vals[x] = r
 	case *types.Array:
 		r := st.freshRef("arr")
-		es := fx.sortOf(u.Elem())
+		es := fx.elemSort(u.Elem())
 		mn := "Mem." + sanitize(es)
 		ms := "(Array Int " + arrOf(es) + ")"
 		st.heapSet(mn, ms, "(store "+st.heapGet(mn, ms)+" "+r+" ((as const "+arrOf(es)+") "+fx.zeroOfSort(es)+"))")
@@ -703,13 +704,13 @@ func (fx *FnExec) doIndexAddr(st *State, fr *frame, x *ssa.IndexAddr) {
 	xv := st.val(x.X)
 	switch u := x.X.Type().Underlying().(type) {
 	case *types.Slice:
-		es := fx.sortOf(u.Elem())
+		es := fx.elemSort(u.Elem())
 		fx.emit(st, fr, "bounds", fx.ord(fr.fn, x, "index"), "(and (<= 0 "+iv+") (< "+iv+" (slen "+xv+")))", nil, "")
 		st.lvs[x] = &LValue{kind: lvElem, heap: "Mem." + sanitize(es), heapSort: "(Array Int " + arrOf(es) + ")", idx: "(sptr " + xv + ")", idx2: iv, off: "(soff " + xv + ")", elemSort: es, typ: u.Elem()}
 		st.vals[x] = "0"
 	case *types.Pointer:
 		at := u.Elem().Underlying().(*types.Array)
-		es := fx.sortOf(at.Elem())
+		es := fx.elemSort(at.Elem())
 		fx.emit(st, fr, "bounds", fx.ord(fr.fn, x, "index"), fmt.Sprintf("(and (<= 0 %s) (< %s %d))", iv, iv, at.Len()), nil, "")
 		st.lvs[x] = &LValue{kind: lvElem, heap: "Mem." + sanitize(es), heapSort: "(Array Int " + arrOf(es) + ")", idx: xv, idx2: iv, elemSort: es, typ: at.Elem()}
 		st.vals[x] = "0"
@@ -1096,7 +1097,7 @@ const maxAlloc = int64(1) << 48
 func (fx *FnExec) doMakeSlice(st *State, fr *frame, x *ssa.MakeSlice) {
 	ln, cp := st.val(x.Len), st.val(x.Cap)
 	et := x.Type().Underlying().(*types.Slice).Elem()
-	es := fx.sortOf(et)
+	es := fx.elemSort(et)
 	lim := maxAlloc / elemSize(et)
 	_, lenConst := x.Len.(*ssa.Const)
 	_, capConst := x.Cap.(*ssa.Const)
